@@ -151,7 +151,9 @@ def oracle(tier, seed):
     # expressions outside the supported grammar: rejected with an error, or - if accepted - translated with the right value; never
     # silently replaced (the translator object is shared by all KROME reactions, so a supported rate is translated first)
     for t, v in [("exp(-user_a*invT)", FUNCS["exp"](-(VARS["user_a"] * VARS["invT"]))), ("-Tgas + 2.0d0", -VARS["Tgas"] + 2),
-                 ("Tgas**(-0.5d0)", FUNCS["pow"](VARS["Tgas"], Fraction(-1, 2))), ("2.0d0*(-T32)", 2 * (-VARS["T32"]))]:
+                 ("Tgas**(-0.5d0)", FUNCS["pow"](VARS["Tgas"], Fraction(-1, 2))), ("2.0d0*(-T32)", 2 * (-VARS["T32"])),
+                 ("exp(-user_a**2.0d0)", FUNCS["exp"](-FUNCS["pow"](VARS["user_a"], Fraction(2)))), ("-T32**2.0d0*Te", -FUNCS["pow"](VARS["T32"], Fraction(2)) * VARS["Te"]),
+                 ("Te*(-invT**2.0d0)", VARS["Te"] * (-FUNCS["pow"](VARS["invT"], Fraction(2)))), ("-n(idx_H)**2.0d0", -FUNCS["pow"](Fraction(29, 5), Fraction(2)))]:
         cases += 1
         try:
             netx = translate(["Tgas*2.0d0 + 1.5d0", t])
